@@ -29,7 +29,9 @@ OPTIONS = [
     ('resolve_dns', 'modify', '10.0.0.7'),
     ('before_upstream_connection', 'replace', None),        # returns a NEW request object
     ('handle_client_request', 'replace', None),
+    ('handle_client_request', 'drop_path', b'/two'),        # drops the SECOND request of the connection only
 ]
+R3 = b'GET http://h.test/three HTTP/1.1\r\nHost: h.test\r\n\r\n'
 CHUNK_MODS = [(b'ok', b'oA'), (b'o', b'B'), (b'A', b'ok')]    # order-sensitive replacements
 
 ENDINGS = ['normal', 'client-abort-after-R1', 'client-abort-mid-R1', 'client-close-after-resp1',
@@ -110,6 +112,8 @@ class Lazy:
         net = {}
         if e == 'normal' or e == 'bad-credentials':
             script = [('send', r1), ('wait_idle',), ('send', R2), ('wait_idle',), ('close',)]
+            if any(OPTIONS[c] and OPTIONS[c][1] == 'drop_path' for c in combo):
+                script = [('send', r1), ('wait_idle',), ('send', R2), ('wait_idle',), ('send', R3), ('wait_idle',), ('close',)]
         elif e == 'client-abort-after-R1':
             script = [('send', r1), ('close',)]
         elif e == 'client-abort-mid-R1':
@@ -136,18 +140,21 @@ class Lazy:
                                   '_behs': behs})
 
 
-def stopper(beh, hook):
-    a = beh.get(hook, ('pass', None))[0]
+def stopper(beh, hook, path=None):
+    act = beh.get(hook, ('pass', None))
+    a = act[0]
     if hook == 'resolve_dns':
         return a == 'modify'
+    if a == 'drop_path':
+        return path is not None and path.split(b'?')[0].endswith(act[1])
     return a in ('drop', 'reject')
 
 
-def expected_prefix(behs, hook):
+def expected_prefix(behs, hook, path=None):
     out = []
     for i, b in enumerate(behs):
         out.append('P%d' % i)
-        if stopper(b, hook):
+        if stopper(b, hook, path):
             break
     return out
 
@@ -171,14 +178,14 @@ def rounds(rec, hook):
     return rs
 
 
-def chain_request(behs, hook, tags):
+def chain_request(behs, hook, tags, path=b'/one'):
     """Reference interpreter for a request chain: returns (outcome, tags, rejecting plugin)."""
     tags = set(tags)
     for i, b in enumerate(behs):
         a = b.get(hook, ('pass', None))
         if a[0] in ('modify', 'replace'):
             tags.add(('P%d' % i).encode())
-        elif a[0] == 'drop':
+        elif a[0] == 'drop' or (a[0] == 'drop_path' and path.endswith(a[1])):
             return 'drop', tags, i
         elif a[0] == 'reject':
             return 'reject', tags, i
@@ -224,6 +231,8 @@ def check(w):
             else expected_prefix(behs, hook)
         for r in rounds(rec, hook):
             names = [n for n, _i in r]
+            if hook in ('before_upstream_connection', 'handle_client_request') and r and isinstance(r[0][1], tuple):
+                exp = expected_prefix(behs, hook, r[0][1][1])      # per request: a plugin may drop one path only
             if names != exp:
                 bad('plugin_chain_order_or_short_circuit_wrong', hook=hook, got=names, want=exp)
                 break
@@ -309,6 +318,18 @@ def check(w):
                 want_stream += x if x is not None else b''
             if bytes(c.rx) != want_stream:
                 bad('client_stream_not_as_chunk_chain_prescribes', got=bytes(c.rx), want=want_stream)
+    # ---- 2b. a plugin that drops ONE follow-up request suppresses that request only
+    if e == 'normal' and any(b.get('handle_client_request', ('pass',))[0] == 'drop_path' for b in behs) and authed \
+            and not (faulty and any(w.choices)) \
+            and not any(stopper(b, h) for b in behs for h in ('before_upstream_connection', 'handle_client_request')):
+        seen_paths = [info[1] for (_n, h, info) in rec if h == 'handle_client_request' and _n == 'P0']
+        if seen_paths != [b'/one', b'/two', b'/three']:
+            bad('request_after_a_dropped_followup_never_reached_the_plugins', hook='handle_client_request', got=seen_paths)
+        origin_targets = []
+        for oc in w.origin_conns:
+            origin_targets += [rq['target'] for rq in getattr(oc, 'requests', [])]
+        if origin_targets != [b'/one', b'/three']:
+            bad('dropping_one_followup_request_changed_what_else_is_forwarded', got=origin_targets, want=[b'/one', b'/three'])
     # ---- 3. lifecycle callbacks: exactly once per connection whose first request completed
     if first_complete:
         al = rounds(rec, 'on_access_log')
@@ -324,7 +345,7 @@ def run(tier):
     lz = scenarios(tier)
     return netcheck.run(PROP, tier, lz, check, 0, None, det_every=211, flagsets=[],
                         rule='plugin programs: every list of 1..n recording plugins (n=2 quick, 3 thorough), each with one '
-                             'of 14 (hook, behaviour) options, every order, x 8 endings (+ auth on: good / bad credentials); plus, for every single-plugin program and a set of '
+                             'of 15 (hook, behaviour) options, every order, x 8 endings (+ auth on: good / bad credentials); plus, for every single-plugin program and a set of '
                              'two-plugin programs, every single injected socket error / postponed peer action (d <= 1) with the '
                              'order, threading and exactly-once lifecycle rules as oracle; '
                              'one execution of the real executor each; reference interpreter of the documented chain as oracle')
